@@ -2,6 +2,9 @@
 package c11
 
 import (
+	"encoding/json"
+	"os"
+	"path/filepath"
 	"time"
 
 	"verifh/c10"
@@ -21,6 +24,10 @@ func Run(o *hx.Opts, w *lineio.Writer) error {
 		return c10.RunIsolated("C11", o, w, jobs, 1, 60*time.Second)
 	}
 	mp := c10.MaxPayloadOrDocumented()
+	if dir := os.Getenv("VERIFH_DUMP_CORPUS"); dir != "" {
+		// maintenance: regenerate the hand-picked corpus files from the generators
+		return dumpCorpus(dir, mp)
+	}
 	var jobs []c10.Job
 	sizes := [3]int{5, 0, 3}
 	if o.Thorough() {
@@ -30,15 +37,56 @@ func Run(o *hx.Opts, w *lineio.Writer) error {
 	jobs = append(jobs, c10.OverflowSweep(mp, []int{1, 2, 3, 4, 7})...)
 	jobs = append(jobs, c10.ListenerScripts(mp)...)
 	r := o.Rand(11)
-	for i := 0; i < o.N(150, 3000); i++ {
+	for i := 0; i < o.N(500, 12000); i++ {
 		jobs = append(jobs, c10.RandomScript(r, mp, i))
 	}
-	if err := c10.RunIsolated("C11", o, w, jobs, 40, 20*time.Second); err != nil {
+	if err := c10.RunIsolated("C11", o, w, jobs, 12, 20*time.Second); err != nil {
 		return err
 	}
 	var chaos []c10.Job
-	for i := 0; i < o.N(60, 800); i++ {
+	for i := 0; i < o.N(240, 4000); i++ {
 		chaos = append(chaos, RandomChaos(r, mp, i))
 	}
 	return c10.RunIsolated("C11", o, w, chaos, 10, 30*time.Second)
+}
+
+func dumpCorpus(dir string, mp int) error {
+	dump := func(prop, name string, jobs []c10.Job) error {
+		if err := os.MkdirAll(filepath.Join(dir, prop), 0o755); err != nil {
+			return err
+		}
+		f, err := os.Create(filepath.Join(dir, prop, name))
+		if err != nil {
+			return err
+		}
+		defer f.Close()
+		for _, j := range jobs {
+			b, err := json.Marshal(map[string]interface{}{"id": j.ID, "in": j.In})
+			if err != nil {
+				return err
+			}
+			f.Write(append(b, '\n'))
+		}
+		return nil
+	}
+	if err := dump("C11", "open-after-close.jsonl", c10.OpenAfterClose(mp)); err != nil {
+		return err
+	}
+	if err := dump("C10", "excluded-points.jsonl", c10.ExcludedScripts(mp)); err != nil {
+		return err
+	}
+	var pick []c10.Job
+	for _, j := range c10.TruncationSweep(mp, [3]int{5, 0, 3}) {
+		switch j.ID {
+		case "trunc-d0-k0", "trunc-d0-k3", "trunc-d0-k8", "trunc-d0-k10", "trunc-d0-k13", "trunc-d1-k21", "trunc-d0-k32":
+			pick = append(pick, j)
+		}
+	}
+	if err := dump("C11", "truncation-edges.jsonl", pick); err != nil {
+		return err
+	}
+	if err := dump("C11", "overflow-q1.jsonl", c10.OverflowSweep(mp, []int{1})[:2]); err != nil {
+		return err
+	}
+	return dump("C11", "listener.jsonl", c10.ListenerScripts(mp))
 }
